@@ -100,7 +100,15 @@ func (dec *Decoder) decodeBigInt(t reflect.Type, tag byte, p **big.Int) {
 		*p = dec.readBigInt(t)
 	case TagDouble:
 		if bf := dec.readBigFloat(t); bf != nil {
-			*p, _ = bf.Int(nil)
+			if bf.MantExp(nil) > 1<<14 {
+				// a few bytes like d1e600000000; would expand into hundreds of megabytes of
+				// digits; a double token denotes a double, whose exponent is below 2^10.
+				if dec.Error == nil {
+					dec.Error = DecodeError("hprose/io: exponent too large for an integer")
+				}
+			} else {
+				*p, _ = bf.Int(nil)
+			}
 		}
 	case TagUTF8Char:
 		*p = dec.stringToBigInt(dec.readUnsafeString(1), t)
